@@ -162,6 +162,8 @@ def check(ctx):
     if not found:
         ctx.violation("R-C18.5", "nomatch-silent", "CLexer._match_token no longer calls _error when neither the master regex nor a fixed token matches: illegal characters would be skipped silently",
                       file=lx.rel, function="CLexer._match_token")
+    from . import c09
+    c09.scanner_sibling_rules(ctx, "R-C18.5", "R-C18.5")   # text glued to a #line directive is not skipped unchecked
     er = lx.method("CLexer", "_error")
     ok = any(isinstance(n, ast.Call) and isinstance(n.func, ast.Attribute) and n.func.attr == "error_func" for n in ast.walk(er))
     ctx.oblige("R-C18.5", "CLexer._error calls the error callback", ok)
